@@ -68,8 +68,14 @@ type specGen struct {
 func newSpecGen(seed int64, nHot int) *specGen {
 	g := &specGen{rng: rand.New(rand.NewSource(seed))}
 	g.plan = tagPlan{TagNames: c08Tags, Style: gen.MsgMixed, MaxRules: 3, Unknown: true, Groups: true, seq: &g.seq}
-	g.topts = gen.TypeOpts{MaxFields: 5, MaxDepth: 2, Leaf: vLeafTypes, Unexported: true, Ptr: true, PtrPtr: true, Slices: true, Arrays: true, Maps: false, Tag: g.plan.ruleTag}
+	g.topts = gen.TypeOpts{MaxFields: 5, MaxDepth: 2, Leaf: vLeafTypes, Unexported: true, Ptr: true, PtrPtr: true, Slices: true, Arrays: true, Maps: false, Tag: g.plan.ruleTag, Time: true}
 	for i := 0; i < nHot; i++ {
+		if i%2 == 1 && len(namedTypesNoMap) > 0 {
+			// named types: clause paths and anything keyed by the struct name are degenerate for
+			// the anonymous types reflect.StructOf builds
+			g.hot = append(g.hot, namedTypesNoMap[g.rng.Intn(len(namedTypesNoMap))])
+			continue
+		}
 		g.hot = append(g.hot, gen.RandStruct(g.rng, g.topts))
 	}
 	return g
@@ -85,6 +91,9 @@ func (g *specGen) next() callSpec {
 	pickType := func() reflect.Type {
 		if rng.Intn(4) != 0 {
 			return g.hot[rng.Intn(len(g.hot))]
+		}
+		if rng.Intn(2) == 0 && len(namedTypesNoMap) > 0 {
+			return namedTypesNoMap[rng.Intn(len(namedTypesNoMap))]
 		}
 		return gen.RandStruct(rng, g.topts) // a type of its own
 	}
